@@ -350,6 +350,11 @@ class Fn:
                 return f"(.toTup {self.expr(args[0])})"
             if obj is isinstance and len(args) == 2 and not kws and isinstance(args[1], ast.Name) and args[1].id == "int":
                 return f"(.isInt {self.expr(args[0])})"
+            import datetime as _dt
+            if obj is isinstance and len(args) == 2 and not kws and self.glob.get(dotted(args[1]) or "") is _dt.timedelta:
+                return f"(.isTd {self.expr(args[0])})"
+            if obj is _dt.timedelta and len(args) == 1 and not kws and isinstance(args[0], ast.Constant) and args[0].value == 0:
+                return "(.lit (.td 0))"
             if obj in (any, all, next, max) and len(args) == 1 and not kws and isinstance(args[0], ast.GeneratorExp):
                 return self.gen({any: "anyGen", all: "allGen", next: "nextGen", max: "maxGen"}[obj], args[0])
             if obj is max and len(args) == 1 and set(k.arg for k in kws) == {"key"} and isinstance(kws[0].value, ast.Lambda) \
@@ -465,6 +470,8 @@ class Fn:
                 body = self.block(st.body)
                 return f"(.forIn \"$it\" {self.expr(st.iter)}\n (.seq {un}\n {body})\n {self.block(st.orelse)})"
             raise Refused("for target")
+        if isinstance(st, ast.Assert) and st.msg is None:
+            return f"(.ite (.not {self.expr(st.test)})\n (.raise (.internal \"AssertionError\"))\n .skip)"
         if isinstance(st, ast.Break):
             return ".brk"
         if isinstance(st, ast.Continue):
@@ -503,6 +510,8 @@ FUNCTIONS = [
     ("complexSustain", "instrument", "complex_sustain_from_parsed_datas"),
     ("refinedSustainTuple", "instrument", "_refined_sustain_tuple"),
     ("lastNoteEndTimestamp", "instrument", "InstrumentTrack.last_note_end_timestamp"),
+    ("notesPerSecond", "chart", "Chart.notes_per_second"),
+    ("parseAllLinesForField", "metadata", "Metadata.from_chart_lines.parse_all_lines_for_field"),
 ]
 
 
